@@ -204,6 +204,53 @@ pub fn emit_first_nonces() -> i32 {
     0
 }
 
+fn build_one_nonce(p: Proto, l: Layer) -> Option<String> {
+    let key = domains::official_key();
+    let ops = vec![BOp::Claim(ClaimSpec::auto("data", json!("same"))), BOp::Build];
+    let (ev, _) = adapter::with_rng_observer(|| adapter::build_history(p, l, &key, &ops));
+    match ev.last() {
+        Some(BEvent::Built(Out::Ok(t))) => wire_nonce(p, t).map(|n| b64::hex(&n)),
+        _ => None,
+    }
+}
+
+/// `pvmc C10 --fork-child`: a single-threaded process that builds one token, then duplicates itself with fork()
+/// (std's `pre_exec` hook runs in the forked copy, before it execs /bin/true) and lets both copies build tokens
+/// under the same key: whatever random state the first build left in the process image now exists twice.
+pub fn fork_child() -> i32 {
+    use std::io::Write;
+    use std::os::unix::process::CommandExt;
+    adapter::freeze_default_clock();
+    let dir = crate::report::verif_dir().join("target").join("tmp");
+    let _ = std::fs::create_dir_all(&dir);
+    let mut out = serde_json::Map::new();
+    for p in Proto::LOCAL {
+        for l in [Layer::Generic, Layer::Prelude] {
+            let before = build_one_nonce(p, l);
+            let path = dir.join(format!("fork-{}-{}-{}.txt", std::process::id(), p.name(), l.name()));
+            let Ok(file) = std::fs::File::create(&path) else { continue };
+            let mut cmd = std::process::Command::new("/bin/true");
+            unsafe {
+                cmd.pre_exec(move || {
+                    for _ in 0..48 {
+                        if let Some(n) = build_one_nonce(p, l) {
+                            let _ = writeln!(&file, "{}", n);
+                        }
+                    }
+                    Ok(())
+                });
+            }
+            let status = cmd.status();
+            let parent: Vec<String> = (0..48).filter_map(|_| build_one_nonce(p, l)).collect();
+            let forked: Vec<String> = std::fs::read_to_string(&path).unwrap_or_default().lines().map(|s| s.to_string()).collect();
+            let _ = std::fs::remove_file(&path);
+            out.insert(format!("{}/{}", p.name(), l.name()), json!({"before": before, "parent": parent, "forked": forked, "spawned": status.is_ok()}));
+        }
+    }
+    println!("{}", Value::Object(out));
+    0
+}
+
 pub fn run(tier: &str) -> i32 {
     let run = Run::new("C10", tier);
     let quick = tier == "quick";
@@ -362,6 +409,41 @@ pub fn run(tier: &str) -> i32 {
             }
         }
         all.merge(pacc);
+    }
+
+    // ---- a forked copy of a process that has already drawn: parent and copy must not hand out the same nonces
+    {
+        let mut facc = Acc::default();
+        let exe = std::env::current_exe().unwrap_or_else(|_| crate::report::machinery_error("no current_exe"));
+        let o = std::process::Command::new(&exe).args(["C10", "--fork-child"]).output().unwrap_or_else(|_| crate::report::machinery_error("cannot spawn pvmc"));
+        let txt = String::from_utf8_lossy(&o.stdout).to_string();
+        let Some(v) = txt.lines().last().and_then(|l| serde_json::from_str::<Value>(l).ok()) else { crate::report::machinery_error("the fork pass produced no result") };
+        for (k, r) in v.as_object().cloned().unwrap_or_default() {
+            let list = |name: &str| -> Vec<String> { r[name].as_array().cloned().unwrap_or_default().iter().filter_map(|x| x.as_str().map(|s| s.to_string())).collect() };
+            let (parent, forked) = (list("parent"), list("forked"));
+            if r["spawned"] != json!(true) || forked.is_empty() {
+                // no /bin/true, or fork refused: nothing observed, nothing decided by this pass
+                facc.bump("fork-pass:unavailable");
+                continue;
+            }
+            if parent.is_empty() {
+                crate::report::machinery_error("the fork pass built no token in the parent");
+            }
+            facc.executions += (parent.len() + forked.len()) as u64;
+            let all_n: HashSet<&String> = parent.iter().chain(forked.iter()).collect();
+            let common = parent.iter().filter(|n| forked.contains(n)).count();
+            let p = Proto::from_name(k.split('/').next().unwrap_or("")).unwrap_or(Proto::V4L);
+            if common > 0 || all_n.len() != parent.len() + forked.len() {
+                facc.violate(
+                    format!("C10|{}|nonce-reuse-after-fork", p.name()),
+                    format!("{}: after one build the process was duplicated with fork(); {} of the next 48 nonces of the parent equal nonces handed out by the forked copy under the same key ({} distinct among {})", k, common, all_n.len(), parent.len() + forked.len()),
+                    json!({"nonce_case": NonceCase { proto: p, history: vec![HOp::NewGeneric, HOp::ClaimsSame, HOp::Build], script: vec![] }, "cross_process": true, "fork": true}),
+                );
+            } else {
+                facc.bump("fork-pass:distinct");
+            }
+        }
+        all.merge(facc);
     }
 
     // ---- free-running, several threads at once under one key: nonces must be distinct across threads too
